@@ -217,7 +217,8 @@ template<typename SM> static std::string fmt_sparse(const SM& A)
 #if BACKEND == 0
 static std::string fmt_mat(const MatT& A) { return fmt_dense(A); }
 #else
-static std::string fmt_mat(const MatT& A) { return fmt_sparse(A); }
+static std::string fmt_mat(const MatT& A) { return fmt_dense(Mat<T>(A)); }
+static std::string fmt_pat(const MatT& A) { return fmt_sparse(A); }
 #endif
 
 static std::string pfx;
